@@ -257,7 +257,7 @@ def opName : Op D → String
     thread returns at once). -/
 def expand (fp : Foot) (t : TLoc D) : Call D → List (Step D)
   | .procInit a => fp.ordered "ovni_proc_init" a
-  | .procFini => fp.ordered "ovni_proc_fini" (havoc t)
+  | .procFini => fp.ordered "ovni_proc_fini" {}
   | .threadInit tid =>
     if t.s.ready then []
     else fp.shared "ovni_thread_init" (havoc t) ++
